@@ -374,6 +374,18 @@ theorem C11_store_ops_total_partial (v4 : Bool) (ops : List GOp) (op : GOp) :
     (∃ g', gstep g op = .ok g') ∨ (∃ k, gstep g op = .err k) :=
   store_ops_total v4 ops op
 
+/-- non-vacuity: after a history with a stream of 9000 bytes beside one of 100 bytes, every premise of the
+three theorems above holds for a resize of the small stream (a mini-level operation) and for the
+migration of the big one into the mini stream -/
+example :
+    writesInRangeB { p := Phys.create false, L := fun _ => 0 } [.create 1, .resize 1 9000, .create 2, .resize 2 100] = true ∧
+    miniBoundedB { p := Phys.create false, L := fun _ => 0 } [.create 1, .resize 1 9000, .create 2, .resize 2 100] = true ∧
+    (grun { p := Phys.create false, L := fun _ => 0 } [.create 1, .resize 1 9000, .create 2, .resize 2 100]).p.fat.size
+      + 6 * opCost (.resize 2 3000) ≤ MAXREG + 1 ∧
+    (grun { p := Phys.create false, L := fun _ => 0 } [.create 1, .resize 1 9000, .create 2, .resize 2 100]).L 2 = 100 ∧
+    CUTOFF ≤ (grun { p := Phys.create false, L := fun _ => 0 } [.create 1, .resize 1 9000, .create 2, .resize 2 100]).L 1 := by
+  decide
+
 /-- the premise is met on a fresh file by any write of a buffer that is not astronomically long, and by any resize -/
 example (bs : Bytes) (h : bs.length ≤ 1000000) :
     (Phys.create false).fat.size + 6 * opCost (.write 1 0 bs) ≤ MAXREG + 1 ∧
